@@ -395,7 +395,6 @@ Definition check_wrap (k : wcase) : bool :=
 (* ---------------- binary legacy ufuncs on nested power spaces, any second operand ---------------- *)
 Inductive tobs := TErr (e : errk) | TOk (t : ptreeQ).
 Record l2case := mkL2Case {
-  l2_pv : bool;                     (* measured variant: __array__ accepts a dtype *)
   l2_op : bop; l2_rdt : list (dt * dt); l2_out : bool;
   l2_tree : ptreeQ; l2_arg : @arg2 Q;
   l2_legacy : tobs;                 (* X.ufuncs.<name>(x2[, out=...]) *)
@@ -403,7 +402,7 @@ Record l2case := mkL2Case {
 Definition check_legacy2 (k : l2case) : bool :=
   let F := assoc_dt (l2_rdt k) in
   let f := fun (_ : dt) => bop_ev (l2_op k) in
-  match legacy2 castQ (l2_pv k) F f (l2_out k) (l2_tree k) (l2_arg k), l2_legacy k with
+  match legacy2 castQ F f (l2_out k) (l2_tree k) (l2_arg k), l2_legacy k with
   | Err e, TErr e' => errk_eqb e e'
   | Ok r, TOk t =>
       ptree_close r t
